@@ -988,6 +988,18 @@ def minimise(v: dict) -> dict:
 
 
 def replay(path: str) -> int:
+    import shutil
+    import tempfile
+    os.makedirs(os.path.join(core.VERIF, '.cache'), exist_ok=True)
+    d = tempfile.mkdtemp(prefix='gen19-', dir=os.path.join(core.VERIF, '.cache'))
+    os.environ['VERIF_GEN19_DIR'] = d
+    try:
+        return _replay(path)
+    finally:
+        shutil.rmtree(d, ignore_errors=True)
+
+
+def _replay(path: str) -> int:
     with open(path) as f:
         v = json.load(f)
     vios, _ = run_history(v['case'])
@@ -1001,6 +1013,18 @@ def replay(path: str) -> int:
 
 
 def main(tier: str) -> int:
+    import shutil
+    import tempfile
+    os.makedirs(os.path.join(core.VERIF, '.cache'), exist_ok=True)
+    d = tempfile.mkdtemp(prefix='gen19-', dir=os.path.join(core.VERIF, '.cache'))
+    os.environ['VERIF_GEN19_DIR'] = d
+    try:
+        return _main(tier)
+    finally:
+        shutil.rmtree(d, ignore_errors=True)
+
+
+def _main(tier: str) -> int:
     budget = {'quick': 45.0, 'thorough': 900.0}[tier]
     budget = float(os.environ.get('VERIF_BUDGET_S', budget))
     res = core.run_batch(PROP, 'checks.c19', 'run', tier=tier, budget_s=budget, max_runs=None, chunk=1)
